@@ -336,8 +336,16 @@ impl<'a> View<'a> {
                     _ => {}
                 },
                 // registry manipulation may release the registry's strong entry
-                EvKind::OpBegin { what: OpWhat::Reg(op, kind), .. } => {
-                    if matches!(op, RegOp::Unregister | RegOp::Replace | RegOp::Register) {
+                EvKind::OpBegin { client, op: opi, what: OpWhat::Reg(op, kind), .. } => {
+                    // a register() that was refused changes nothing - except for its own candidate, which may
+                    // have lost its only handle inside the library (the builder's terminal)
+                    let refused = self.ops.iter().find(|o| o.client == *client && o.op == *opi).and_then(|o| match &o.res {
+                        Some(OpRes::Reg(RegRes::RegisterErr { me, .. })) => Some(*me),
+                        _ => None,
+                    });
+                    if let Some(me) = refused {
+                        upd(me, e.stamp);
+                    } else if matches!(op, RegOp::Unregister | RegOp::Replace | RegOp::Register) {
                         for (a, rt) in self.rt.iter().enumerate() {
                             if rt.kind == *kind {
                                 upd(a, e.stamp);
